@@ -265,6 +265,11 @@ mod frame;
 mod packet_id;
 mod udp_frame_sink;
 
+#[cfg(feature = "verif")]
+#[doc(hidden)]
+#[allow(missing_docs)]
+pub mod verif;
+
 /// Server-related connection objects and parameters.
 pub mod server;
 
